@@ -632,6 +632,17 @@ def _r3_cycles(ctx):
                 # entry is in the chain
                 held = bool(back_calls) and all(id(c) in covered
                                                 for c in back_calls)
+                # ... and the membership test is made on every way to them
+                # (a test that a cache hit, an early branch or a flag can
+                # skip guards only some includes)
+                gcf = cfgmod.CFG(fi.node)
+                tests = gcf.nodes_for(n.test) or gcf.nodes_for(n) \
+                    or gcf.node_containing(n.test.left)
+                dom = gcf.dominators()
+                for c in back_calls:
+                    for cn in gcf.node_containing(c):
+                        if not any(t.id in dom.get(cn.id, ()) for t in tests):
+                            held = False
                 if appended and popped and held:
                     guard = (fi, n, ctext)
                 elif appended and popped:
